@@ -25,7 +25,7 @@ CONSTANTS NP,         \* at most NP connected peers (np is chosen in Init)
           Thrs,       \* thresholds (percent) to choose from
           Codes,      \* reject classes used
           MaxDelay,   \* how often the reject timeout may pass
-          MaxX,       \* rejects of an unrelated hash per history
+          MaxX,       \* messages about an unrelated hash (reject "X", getdata "Y") per history
           MaxDup,     \* repeated messages per history (a peer sends a second getdata / a second
                       \* reject of the tx, possibly of another class; at most two of a kind per peer)
           FixRejectFromReplier
@@ -95,6 +95,12 @@ RejectOther(p) ==                                          \* :1041
   /\ UNCHANGED <<np, thr, replies, rej, cnt, closed, armed, verdict, sent, ndelay, ndup>>
   /\ Finish(A("Msg", p, "X", 0))
 
+RequestOther(p) ==                                         \* :1007, vec.Hash # txHash
+  /\ verdict = 0 /\ nx < MaxX
+  /\ nx' = nx + 1
+  /\ UNCHANGED <<np, thr, replies, rej, cnt, closed, armed, verdict, sent, ndelay, ndup>>
+  /\ Finish(A("Msg", p, "Y", 0))
+
 Delay ==                                                   \* delayedCloser fires
   /\ verdict = 0 /\ ndelay < MaxDelay /\ armed \ closed # {}
   /\ ndelay' = ndelay + 1
@@ -125,6 +131,7 @@ Next ==
   \/ \E p \in Peers : GetData(p)
   \/ \E p \in Peers : \E c \in Codes : Reject(p, c)
   \/ \E p \in Peers : RejectOther(p)
+  \/ \E p \in Peers : RequestOther(p)
   \/ Delay
   \/ Timeout
 
